@@ -10,7 +10,7 @@ VARIABLES t, p, phase
 K == IF NonAscii THEN {<<122>>, <<233>>} ELSE {<<97>>, <<98>>}
 K1 == IF NonAscii THEN {<<122>>} ELSE {<<97>>}
 \* (1 and 1.5: an integer and a fraction with the same integer part must be told apart by from_diff)
-S0 == {JNull, JBool(TRUE), JInt(1), JStr(<<115>>), <<"dec", 15, 0 - 1>>}
+S0 == {JNull, JBool(TRUE), JInt(1), JStr(<<115>>)} \cup (IF Depth2 THEN {} ELSE {<<"dec", 15, 0 - 1>>})      \* (the deeper universe keeps four scalars: its square is the case count)
 L1 == S0 \cup ObjsOver(K, S0) \cup ArrsOver(S0, 1)
 L1s == S0 \cup ObjsOver(K1, S0) \cup {EmptyArr}
 L2 == L1 \cup ObjsOver(K, IF Depth2 THEN L1 ELSE L1s) \cup ArrsOver(L1, 1)
